@@ -166,9 +166,10 @@ def relation(want: bytes, got: bytes | None) -> str:
     return 'same-length-different'
 
 
-def leaf_parts(bs: Any, prefix: tuple[int, ...] = ()) \
-        -> list[tuple[tuple[int, ...], int]]:
-    """(part path, announced octets) for every non-multipart part."""
+def leaf_parts(bs: Any, prefix: tuple[int, ...] = (), enc: bool = False) \
+        -> list[tuple[tuple[int, ...], int, bool]]:
+    """(part path, announced octets, numbered through an encapsulated
+    message) for every non-multipart part."""
     if bs is None or bs[0] != 'list' or not bs[1]:
         return []
     items = bs[1]
@@ -179,10 +180,25 @@ def leaf_parts(bs: Any, prefix: tuple[int, ...] = ()) \
             if it[0] != 'list':
                 break
             k += 1
-            out += leaf_parts(it, prefix + (k,))
+            out += leaf_parts(it, prefix + (k,), enc)
         return out
     if len(items) > 6 and items[6][0] == 'num':
-        return [(prefix or (1,), items[6][1])]
+        own = prefix or (1,)
+        is_msg = items[0][1].lower() == b'message' \
+            and items[1][1].lower() == b'rfc822'
+        out = [(own, items[6][1], enc or (is_msg and not prefix))]
+        if items[0][1].lower() == b'message' \
+                and items[1][1].lower() == b'rfc822' and len(items) > 8 \
+                and items[8][0] == 'list' and items[8][1]:
+            # RFC 3501 6.4.5: part numbers below a message/rfc822 part refer
+            # to the parts of the encapsulated message (n.1 is its only part
+            # when it is not multipart)
+            inner = items[8]
+            if inner[1][0][0] == 'list':
+                out += leaf_parts(inner, own, True)
+            else:
+                out += leaf_parts(inner, own + (1,), True)
+        return out
     return []
 
 
@@ -278,7 +294,7 @@ async def check_structure(ctx: Ctx, c: Conn, n: int, b: bytes) -> None:
     leaves = leaf_parts(bs)
     multipart = bool(bs and bs[0] == 'list' and bs[1]
                      and bs[1][0][0] == 'list')
-    for path, octets in leaves[:8]:
+    for path, octets, enc in leaves[:12]:
         sect = b'.'.join(b'%d' % k for k in path)
         att2 = await fetch1(c, n, b'BODY.PEEK[%s]' % sect)
         if att2 is None:
@@ -288,13 +304,16 @@ async def check_structure(ctx: Ctx, c: Conn, n: int, b: bytes) -> None:
         if got is None or len(got) != octets:
             # structural classification: does the announced count equal the
             # part's own header plus its body?
-            hsect = (sect + b'.MIME') if multipart else b'HEADER'
+            hsect = (sect + b'.MIME') if multipart or len(path) > 1 \
+                else b'HEADER'
             att3 = await fetch1(c, n, b'BODY.PEEK[%s]' % hsect)
             hdr = (att3 or {}).get(b'BODY[%s]' % hsect)
             if got is None:
                 rel = 'nil'
             elif hdr is not None and octets == len(hdr) + len(got):
                 rel = 'includes-part-header'
+            elif enc:
+                rel = 'encapsulated-message-numbering'
             else:
                 rel = 'announced-larger' if octets > len(got) \
                     else 'announced-smaller'
